@@ -378,3 +378,13 @@ _app("C08", "text", " The state contexts themselves (Node.with_state / reset / z
 _app("C08", "note", "; tie (T): py2coq_state.py and base/CtxPrelude.v (heap-passing computations that survive exceptions, try/finally, generator context managers as functions of the with-body, ExitStack "
      "as nesting); assumes accepted check_one_sequence arguments and an initialised model at model level; Model.call / run / with_feedback stay on tie (H)")
 _app("C08", "technique", " + state contexts translated on every run and proved equal to the model (translator tie)")
+_app("C02", "text", " The DataDispatcher (load / get / __getitem__) and forward(model, x) are ALSO translated from the current source text on every run (tools/vlib/py2coq_dispatch.py -> "
+     "coq/gen/Gen_dispatch.v over base/PyColl3.v) and proved equal to the model's load / gather / forward, so C02_forward_is_solution is a statement about the translated forward pass "
+     "(C02_generated_*, closed under the global context).")
+_app("C02", "technique", " + dispatcher and forward pass translated on every run and proved equal to the model (translator tie)")
+_app("C10", "text", " The loop around the kernels - _base.train (targets from the teacher node or Y, call or current state, set_state_proxy under force_teachers, update iff i % learn_every == 0 or "
+     "seq_len == 1, pre-update outputs) and Node.train (refusals, first-use initialisation, teacher un-registration in finally) - is ALSO translated on every run (tools/vlib/py2coq_loop.py -> "
+     "coq/gen/Gen_trainloop.v) and proved equal to Online.train for every sequence and flag combination; C10_gate and C10_output_pre_update are transferred (C10_generated_train_loop_*).")
+for _p in ("C06", "C11", "C16"):
+    _app(_p, "text", " The R-vs-Q instance gap is closed by proof for this property's numeric runner (coq/proofs/QR_bridge_%s.v; for the offline side under the solver relation that "
+         "coq/proofs/QSolve_proofs.v provides): a verdict chk_* = true is a statement about the R-instance." % _p)
